@@ -427,6 +427,7 @@ DEGEN_MODEL = [r'get_node', r'has_node', r'get_edges_for_node', r'get_in_edges_f
 
 PROPS.update({
     'C20': dict(
+        extra_modules=['GraphrsModel.Props.C20Model'],
         thorough_scale=1,
         gens=[('degen', '-', 864, 864, 0)],
         translators=['pub_fns'],
